@@ -141,7 +141,7 @@ package bloomsearch
 //@ modifies ghost.mutexLocks
 //@ ensures ghost.mutexLocks == old(ghost.mutexLocks) + 1
 
-//@ modset store =ghost.unions, ghost.written, ghost.layoutOvf, ghost.creates, ghost.created, ghost.writes, ghost.closeCalls, ghost.closeOK, ghost.aborts, ghost.tombstones, ghost.opens, ghost.updates, ghost.updateOK, ghost.closeOKAtUpdate, ghost.updateOKAtTombstone, ghost.tombstonesAtUpdate
+//@ modset store =ghost.seekPos, ghost.stageIn, ghost.rowsScanned, ghost.scanErrs, ghost.unions, ghost.written, ghost.layoutOvf, ghost.creates, ghost.created, ghost.writes, ghost.closeCalls, ghost.closeOK, ghost.aborts, ghost.tombstones, ghost.opens, ghost.updates, ghost.updateOK, ghost.closeOKAtUpdate, ghost.updateOKAtTombstone, ghost.tombstonesAtUpdate
 //@ modset answers = ghost.attempts, ghost.roundAttempts, ghost.sendRounds, ghost.nilRounds, ghost.updateOKAtNilRound, ghost.sends, ghost.nilsends, ghost.recvs
 
 // Store interfaces: results are unconstrained (any call may fail, in any
@@ -183,6 +183,9 @@ package bloomsearch
 // accepted all of p. storeWriter(w): w was handed out by DataStore.CreateFile
 // (the output file); compression stages, hashers and fan-out writers are not.
 //@ ghostvar written map[int]int
+//@ ghostvar stageIn int      // bytes accepted by writers that are not an output file's writer (compression stages, buffers)
+//@ ghostvar rowsScanned int  // rows BlockRowScanner.Next has yielded
+//@ ghostvar scanErrs int     // BlockRowScanner.Next calls that reported a malformed row stream
 //@ specfun wid(w iface) int
 //@ axiom forall a iface :: forall b iface :: wid(a) == wid(b) ==> a == b
 //@ specfun storeWriter(w iface) bool
@@ -191,13 +194,15 @@ package bloomsearch
 //@ pure
 //@ ensures !storeWriter(result)
 //@ extern io.WriteCloser.Write
-//@ modifies ghost.writes, ghost.written
+//@ modifies ghost.writes, ghost.written, ghost.stageIn
 //@ ensures ghost.writes == old(ghost.writes) + 1
+//@ ensures ghost.stageIn == old(ghost.stageIn) + (result1 == nil && !storeWriter(recv) ? len(p) : 0)
 //@ ensures result1 == nil ==> ghost.written[wid(recv)] == old(ghost.written[wid(recv)]) + len(p)
 //@ ensures forall w :: w != wid(recv) ==> ghost.written[w] == old(ghost.written[w])
 //@ extern io.Writer.Write
-//@ modifies ghost.writes, ghost.written
+//@ modifies ghost.writes, ghost.written, ghost.stageIn
 //@ ensures ghost.writes == old(ghost.writes) + 1
+//@ ensures ghost.stageIn == old(ghost.stageIn) + (result1 == nil && !storeWriter(recv) ? len(p) : 0)
 //@ ensures result1 == nil ==> ghost.written[wid(recv)] == old(ghost.written[wid(recv)]) + len(p)
 //@ ensures forall w :: w != wid(recv) ==> ghost.written[w] == old(ghost.written[w])
 
@@ -405,7 +410,7 @@ package bloomsearch
 //@ at call (*BloomSearchEngine).flushBufferedData#1 assert [C07] len(*doneChans) == old(len(*doneChans)) + 1 && (*doneChans)[len(*doneChans) - 1] == req.doneChan && forall k :: 0 <= k && k < old(len(*doneChans)) ==> (*doneChans)[k] == old((*doneChans)[k])
 //@ at call (*BloomSearchEngine).flushBufferedData#2 assert [C07] len(*doneChans) == old(len(*doneChans)) + 1 && (*doneChans)[len(*doneChans) - 1] == req.doneChan && forall k :: 0 <= k && k < old(len(*doneChans)) ==> (*doneChans)[k] == old((*doneChans)[k])
 //@ ensures [C07] len(*doneChans) == old(len(*doneChans)) + 1 ==> (*doneChans)[len(*doneChans) - 1] == old(req.doneChan) && forall k :: 0 <= k && k < old(len(*doneChans)) ==> (*doneChans)[k] == old((*doneChans)[k])
-//@ modifies heaps, ghost.flushTriggers, ghost.writes, ghost.written, ghost.unsafeViews, ghost.pinned, $answers
+//@ modifies heaps, ghost.flushTriggers, ghost.writes, ghost.written, ghost.unsafeViews, ghost.pinned, $answers, ghost.stageIn, ghost.rowsScanned, ghost.scanErrs
 //@ let direct0 = ghost.attempts - ghost.roundAttempts
 // C10 / C09: reaching a buffer-level limit flushes immediately — when the call
 // returns having retained the batch without triggering a flush, the buffered row
@@ -717,7 +722,11 @@ package bloomsearch
 //@ func (*blockFilterCursor).filtersFor
 //@ props C19 C24 C01 C03
 //@ requires c != nil && 0 <= i && i < len(c.blocks) && cursorOK(c)
-//@ modifies c.buf, c.chunkStart, c.chunkShare, heap(byte), heap(BloomFilters), heap(bloom.BloomFilter), heap(bitset.BitSet), heap(uint64), ghost.bufOwned, scanBufferPools
+//@ modifies c.buf, c.chunkStart, c.chunkShare, heap(byte), heap(BloomFilters), heap(bloom.BloomFilter), heap(bitset.BitSet), heap(uint64), ghost.bufOwned, ghost.seekPos, scanBufferPools
+//@ requires [C01] chunkOK(c)
+//@ ensures [C01] chunkOK(c)
+// the bytes handed to the parser are byte for byte the section the block's metadata declares, whatever the chunking
+//@ at call parseFilterSection#1 assert [C01] len(section) == block.BloomFilterSize && forall k :: 0 <= k && k < len(section) ==> section[k] == fbyte(c.file, block.BloomFilterOffset + k)
 //@ ensures cursorOK(c)
 //@ ensures readFailed ==> err != nil
 //@ ensures err == nil ==> filters != nil
@@ -779,7 +788,7 @@ package bloomsearch
 //@ props C02 C21 C22 C23
 //@ requires b != nil && r != nil && slot != nil && handles != nil && rowMatcher != nil
 //@ requires [C22] slot.held
-//@ modifies heaps, ghost.statsRecorded, ghost.statsSkipped, ghost.statsNonZeroSkipped, ghost.errsRecorded, ghost.hAcquired, ghost.hPut, ghost.hDiscarded, ghost.handleCloses, ghost.opens, ghost.matchedOK, ghost.rowsAdded, ghost.unsafeViews, ghost.delivers, ghost.bufOwned, ghost.mutexLocks, ghost.mutexUnlocks, ghost.sends, ghost.nilsends, ghost.recvs
+//@ modifies heaps, ghost.statsRecorded, ghost.statsSkipped, ghost.statsNonZeroSkipped, ghost.errsRecorded, ghost.hAcquired, ghost.hPut, ghost.hDiscarded, ghost.handleCloses, ghost.opens, ghost.matchedOK, ghost.rowsAdded, ghost.unsafeViews, ghost.delivers, ghost.bufOwned, ghost.mutexLocks, ghost.mutexUnlocks, ghost.sends, ghost.nilsends, ghost.recvs, ghost.seekPos, ghost.stageIn, ghost.rowsScanned, ghost.scanErrs
 //@ loop 0 invariant ghost.statsRecorded == old(ghost.statsRecorded) && ghost.statsSkipped == old(ghost.statsSkipped) && ghost.hAcquired == old(ghost.hAcquired) + 1 && ghost.hPut == old(ghost.hPut) + 1 && ghost.hDiscarded == old(ghost.hDiscarded)
 //@ loop 0 invariant scanner != nil && 0 <= scanner.pos && scanner.pos <= len(scanner.data) && batcher.results == r && batcher.slot == slot && r != nil && slot != nil
 //@ at call (*fileHandlePool).acquire#1 assert [C22] slot.held
@@ -797,20 +806,110 @@ package bloomsearch
 //@ ghostvar edmCalls int        // EvaluateDataBlockMetadata calls
 //@ ghostvar edmTrue int         // ... that returned true
 
+// btest(f, s): what filter f answers for string s (the evaluators modify
+// nothing, so within them it is a function of the filter and the string).
+//@ specfun btest(f *bloom.BloomFilter, s str) bool
 //@ extern (*bloom.BloomFilter).TestString
 //@ pure
+//@ ensures result == btest(f, data)
 
 // The tree evaluators only read: they modify nothing (verified, including at
 // their recursive calls, which use this same contract).
+// C01, link L4: bloom evaluation is monotone. One arbitrary, fixed row (ghost):
+// the field paths, tokens and field:token keys it emits (rowField / rowToken /
+// rowFT). filtersHold: every filter that is present answers true for every
+// entry of the row (what indexing establishes, C18, given that the bloom library
+// has no false negatives). brow(x): ANY valuation of expression nodes that is
+// consistent one level down with the documented semantics (browOK) — the row's
+// real satisfaction relation is one. Proved by induction on the tree: filters
+// that hold the row never rule out an expression the row satisfies — at block
+// level and at file level alike (the same function evaluates both).
+//@ specfun rowField(s str) bool
+//@ specfun rowToken(s str) bool
+//@ specfun rowFT(s str) bool
+//@ specfun brow(x BloomExpression) bool
+//@ pred filtersHold(ff *bloom.BloomFilter, tf *bloom.BloomFilter, ftf *bloom.BloomFilter) = (ff != nil ==> forall s str :: rowField(s) ==> btest(ff, s)) && (tf != nil ==> forall s str :: rowToken(s) ==> btest(tf, s)) && (ftf != nil ==> forall s str :: rowFT(s) ==> btest(ftf, s))
+//@ pred bleafSat(c *BloomCondition) = (c.Type == BloomField && rowField(c.Field)) || (c.Type == BloomToken && rowToken(c.Token)) || (c.Type == BloomFieldToken && rowFT(c.Field + "::" + c.Token))
+//@ pred browOK(x BloomExpression) = brow(x) ==>
+//@      (x.ExpressionType == BloomExpressionCondition && (x.Condition == nil || bleafSat(x.Condition)))
+//@   || (x.ExpressionType == BloomExpressionOr && exists ch in x.Children :: brow(ch))
+//@   || (x.ExpressionType == BloomExpressionAnd && forall ch in x.Children :: brow(ch))
+
+//@ func (*BloomSearchEngine).evaluateBloomCondition
+//@ props C01
+//@ requires [C01] b != nil && condition != nil
+//@ modifies nothing
+//@ ensures [C01] filtersHold(fieldFilter, tokenFilter, fieldTokenFilter) && bleafSat(condition) ==> result
+
 //@ func (*BloomSearchEngine).evaluateBloomExpression
 //@ props C24 C01 C25
 //@ modifies nothing
 //@ ensures expression == nil ==> result
+//@ requires [C01] b != nil
+//@ requires [C01] forall x BloomExpression :: browOK(x)
+//@ loop 0 invariant [C01] -1 <= $index && $index < len(expression.Children) && forall ch in expression.Children[:$index + 1] :: !(filtersHold(fieldFilter, tokenFilter, fieldTokenFilter) && brow(ch))
+//@ ensures [C01] expression != nil && filtersHold(fieldFilter, tokenFilter, fieldTokenFilter) && brow(*expression) ==> result
+
+// C04, tree level. One arbitrary, fixed row (ghost): its partition ID and the
+// numeric values of its top-level fields, each a value of R u {+-inf}.
+//   holdsRow(m)  block m holds the row: its partition ID is the row's and its
+//                ranges cover the row's values (what indexing establishes, C18)
+//   prow(x)      "the row satisfies node x": ANY valuation of nodes that is
+//                consistent, one level down, with the documented semantics
+//                (prowOK: a satisfied OR has a satisfied child, a satisfied AND
+//                has only satisfied children, a satisfied leaf's condition holds
+//                of the row, nodes of unknown type are never satisfied). The
+//                row's real satisfaction relation is such a valuation, so what is
+//                proved for every consistent valuation holds for it.
+// Proved, by induction on the tree (the recursive calls use this contract): a
+// block that holds a row satisfying the expression is never pruned.
+//@ specfun rowHasPid() bool
+//@ specfun rowPid() str
+//@ specfun rowHas(k str) bool
+//@ specfun rowInf(k str) int
+//@ specfun rowVal(k str) real
+//@ axiom forall k str :: -1 <= rowInf(k) && rowInf(k) <= 1
+//@ specfun prow(x PrefilterExpression) bool
+//@ pred holdsRowV(m DataBlockMetadata) = (rowHasPid() ==> m.PartitionID == rowPid() && rowPid() != "") && forall k str :: rowHas(k) ==> has(m.MinMaxIndexes, k) && covers(m.MinMaxIndexes[k], rowInf(k), rowVal(k))
+//@ pred ssat(c StringCondition, v str) =
+//@      (c.Operator == OpEqual && v == c.Value)
+//@   || (c.Operator == OpNotEqual && v != c.Value)
+//@   || (c.Operator == OpGreaterThan && v > c.Value)
+//@   || (c.Operator == OpGreaterThanEqual && v >= c.Value)
+//@   || (c.Operator == OpLessThan && v < c.Value)
+//@   || (c.Operator == OpLessThanEqual && v <= c.Value)
+//@   || (c.Operator == OpIn && exists k :: 0 <= k && k < len(c.Values) && c.Values[k] == v)
+//@   || (c.Operator == OpNotIn && !(exists k :: 0 <= k && k < len(c.Values) && c.Values[k] == v))
+//@   || (c.Operator == OpBetween && v >= c.Min && v <= c.Max)
+//@   || (c.Operator == OpNotBetween && (v < c.Min || v > c.Max))
+//@ pred leafSat(c *PrefilterCondition) =
+//@      (c.ConditionType == PrefilterConditionPartition && (c.PartitionCondition == nil || (rowHasPid() && ssat(*c.PartitionCondition, rowPid()))))
+//@   || (c.ConditionType == PrefilterConditionMinMax && (c.MinMaxCondition == nil || (rowHas(c.MinMaxFieldName) && sat(*c.MinMaxCondition, rowInf(c.MinMaxFieldName), rowVal(c.MinMaxFieldName)))))
+//@ pred prowOK(x PrefilterExpression) = prow(x) ==>
+//@      (x.ExpressionType == PrefilterExpressionCondition && (x.Condition == nil || leafSat(x.Condition)))
+//@   || (x.ExpressionType == PrefilterExpressionOr && exists ch in x.Children :: prow(ch))
+//@   || (x.ExpressionType == PrefilterExpressionAnd && forall ch in x.Children :: prow(ch))
+
+//@ func evaluatePrefilterCondition
+//@ props C04 C02
+//@ requires [C04,C02] metadata != nil && condition != nil
+//@ modifies nothing
+//@ at call EvaluateMinMaxCondition#1 ghost inf = rowInf(condition.MinMaxFieldName)
+//@ at call EvaluateMinMaxCondition#1 ghost v = rowVal(condition.MinMaxFieldName)
+//@ ensures [C04] holdsRowV(*metadata) && leafSat(condition) ==> result
+// C02 (strict prefilter semantics): a block whose metadata lacks what the
+// condition refers to is never admitted by it.
+//@ ensures [C02] condition.ConditionType == PrefilterConditionPartition && condition.PartitionCondition != nil && metadata.PartitionID == "" ==> !result
+//@ ensures [C02] condition.ConditionType == PrefilterConditionMinMax && condition.MinMaxCondition != nil && !has(metadata.MinMaxIndexes, condition.MinMaxFieldName) ==> !result
 
 //@ func evaluatePrefilterExpression
 //@ props C04 C24 C25
 //@ modifies nothing
 //@ ensures expression == nil ==> result
+//@ requires [C04] metadata != nil
+//@ requires [C04] forall x PrefilterExpression :: prowOK(x)
+//@ loop 0 invariant [C04] -1 <= $index && $index < len(expression.Children) && forall ch in expression.Children[:$index + 1] :: !(holdsRowV(*metadata) && prow(ch))
+//@ ensures [C04] expression != nil && holdsRowV(*metadata) && prow(*expression) ==> result
 
 //@ func EvaluateStringCondition
 //@ props C04 C02
@@ -834,6 +933,9 @@ package bloomsearch
 //@ modifies ghost.bloomVerdict
 //@ ensures ghost.bloomVerdict == result
 //@ ensures bloomQuery == nil || bloomQuery.Expression == nil ==> result
+//@ requires [C01] b != nil
+//@ requires [C01] forall x BloomExpression :: browOK(x)
+//@ ensures [C01] bloomQuery != nil && bloomQuery.Expression != nil && filtersHold(fieldFilter, tokenFilter, fieldTokenFilter) && brow(*bloomQuery.Expression) ==> result
 
 //@ func EvaluateDataBlockMetadata
 //@ props C04 C02 C24
@@ -842,25 +944,33 @@ package bloomsearch
 //@ modifies ghost.edmCalls, ghost.edmTrue
 //@ ensures ghost.edmCalls == old(ghost.edmCalls) + 1 && ghost.edmTrue == old(ghost.edmTrue) + (result ? 1 : 0)
 //@ ensures query == nil || query.Expression == nil ==> result
+//@ requires [C04] metadata != nil
+//@ requires [C04] forall x PrefilterExpression :: prowOK(x)
+//@ ensures [C04] query != nil && query.Expression != nil && holdsRowV(*metadata) && prow(*query.Expression) ==> result
 
 // FilterDataBlocks evaluates every block exactly once and keeps exactly the
 // blocks whose evaluation was true, each being one of the input blocks; without
 // a prefilter it returns its input.
 //@ func FilterDataBlocks
 //@ props C04 C02 C24 C01
+//@ heapfacts [C04] int
 //@ modifies ghost.edmCalls, ghost.edmTrue
 //@ loop 0 invariant -1 <= $index && $index < len(blocks) && ghost.edmCalls == old(ghost.edmCalls) + $index + 1 && len(filtered) == ghost.edmTrue - old(ghost.edmTrue)
-//@ loop 0 invariant forall j :: 0 <= j && j < len(filtered) ==> exists i :: 0 <= i && i <= $index && filtered[j] == blocks[i]
+//@ loop 0 invariant [C02,C24,C01] forall j :: 0 <= j && j < len(filtered) ==> exists i :: 0 <= i && i <= $index && filtered[j] == blocks[i]
 //@ ensures query == nil ==> result == blocks
 //@ ensures query != nil ==> ghost.edmCalls == old(ghost.edmCalls) + len(blocks) && len(result) == ghost.edmTrue - old(ghost.edmTrue)
-//@ ensures query != nil ==> forall j :: 0 <= j && j < len(result) ==> exists i :: 0 <= i && i < len(blocks) && result[j] == blocks[i]
+//@ ensures [C02,C24,C01] query != nil ==> forall j :: 0 <= j && j < len(result) ==> exists i :: 0 <= i && i < len(blocks) && result[j] == blocks[i]
+// C04: every block that holds a row satisfying the prefilter survives, unmodified
+//@ requires [C04] forall x PrefilterExpression :: prowOK(x)
+//@ loop 0 invariant [C04] query != nil && query.Expression != nil && prow(*query.Expression) ==> forall bl in blocks[:$index + 1] :: holdsRowV(bl) ==> exists f in filtered :: f == bl
+//@ ensures [C04] query != nil && query.Expression != nil && prow(*query.Expression) ==> forall bl in blocks :: holdsRowV(bl) ==> exists f in result :: f == bl
 
 // The file stage of Query (the range-over-func body): a file job is sent only
 // for a file that still has blocks after the prefilter and, when the query has
 // bloom conditions, whose file-level filters evaluated true.
 //@ func (*BloomSearchEngine).Query$closure(sendWithContext[fileFilterJob])
 //@ appends r.errs
-//@ props C24 C01
+//@ props C24
 //@ modifies all
 //@ at call sendWithContext[fileFilterJob]#1 assert [C24] len(maybeFile.Metadata.DataBlocks) > 0 && (hasBloomConditions ==> ghost.bloomVerdict)
 
@@ -875,7 +985,7 @@ package bloomsearch
 //@ props C24 C23 C21 C22
 //@ requires b != nil && r != nil && slot != nil && handles != nil
 //@ requires slot.ctx == r.ctx
-//@ modifies heaps, ghost.statsRecorded, ghost.statsSkipped, ghost.statsNonZeroSkipped, ghost.errsRecorded, ghost.hAcquired, ghost.hPut, ghost.hDiscarded, ghost.handleCloses, ghost.opens, ghost.bloomVerdict, ghost.bufOwned, ghost.mutexLocks, ghost.mutexUnlocks, ghost.sends, ghost.nilsends, ghost.recvs
+//@ modifies heaps, ghost.statsRecorded, ghost.statsSkipped, ghost.statsNonZeroSkipped, ghost.errsRecorded, ghost.hAcquired, ghost.hPut, ghost.hDiscarded, ghost.handleCloses, ghost.opens, ghost.bloomVerdict, ghost.bufOwned, ghost.mutexLocks, ghost.mutexUnlocks, ghost.sends, ghost.nilsends, ghost.recvs, ghost.seekPos
 //@ loop 0 invariant -1 <= $index && $index < len(blocks) && len(dst) == old(len(dst)) + $index + 1 && ghost.statsRecorded == old(ghost.statsRecorded) && ghost.hAcquired == old(ghost.hAcquired) && ghost.opens == old(ghost.opens) && ghost.hPut == old(ghost.hPut) && ghost.hDiscarded == old(ghost.hDiscarded) && ghost.statsNonZeroSkipped == old(ghost.statsNonZeroSkipped)
 //@ loop 1 invariant -1 <= $index && $index < len(blocks) && len(dst) == old(len(dst)) + $index + 1 && ghost.statsRecorded == old(ghost.statsRecorded) && ghost.hAcquired == old(ghost.hAcquired) && ghost.opens == old(ghost.opens) && ghost.hPut == old(ghost.hPut) && ghost.hDiscarded == old(ghost.hDiscarded) && ghost.statsNonZeroSkipped == old(ghost.statsNonZeroSkipped) && slot.held
 //@ loop 2 invariant -1 <= $index && $index < len(blocks) && (ghost.statsRecorded - old(ghost.statsRecorded)) + (len(dst) - old(len(dst))) == $index + 1
@@ -1048,7 +1158,7 @@ package bloomsearch
 // written — rows end where the filter region starts, the region holds the
 // sections back to back in block order and ends at offset+size.
 //@ loop 3 invariant [C17] rowsOK(newDataBlocks, currentOffset) && sectionsAt(newDataBlocks, 0, len(filterRegion.buf.buf) - filterRegion.buf.off) && storeWriter(writer)
-//@ loop 3 invariant [C18] setsOK(fileEntries)
+//@ loop 3 invariant [C17,C18] setsOK(fileEntries)
 //@ ensures [C17] result2 == nil && !ghost.layoutOvf ==> rowsAt(result1.DataBlocks, result1.BlockFilterRegionOffset)
 //@ ensures [C17] result2 == nil && !ghost.layoutOvf && result1.BlockFilterRegionOffset + result1.BlockFilterRegionSize <= MaxInt64 ==> sectionsAt(result1.DataBlocks, result1.BlockFilterRegionOffset, result1.BlockFilterRegionOffset + result1.BlockFilterRegionSize)
 //@ modifies heaps, $store, ghost.handleCloses, ghost.unsafeViews, ghost.pinned
@@ -1102,8 +1212,8 @@ package bloomsearch
 //@ heapfacts []DataBlockMetadata, bloomEntrySets
 //@ requires b != nil && currentOffset != nil && newDataBlocks != nil && fileEntries != nil && filterRegion != nil
 //@ requires [C17] rowsOK(*newDataBlocks, *currentOffset) && sectionsAt(*newDataBlocks, 0, regionLen(filterRegion)) && storeWriter(writer)
-//@ requires [C18] setsOK(fileEntries)
-//@ modifies heaps, ghost.pinned, ghost.unsafeViews, ghost.opens, ghost.handleCloses, ghost.writes, ghost.written, ghost.unions, ghost.layoutOvf
+//@ requires [C17,C18] setsOK(fileEntries)
+//@ modifies heaps, ghost.pinned, ghost.unsafeViews, ghost.opens, ghost.handleCloses, ghost.writes, ghost.written, ghost.unions, ghost.layoutOvf, ghost.seekPos, ghost.stageIn, ghost.rowsScanned, ghost.scanErrs
 //@ pred untouched(nb *[]DataBlockMetadata, co *int, fr *blockFilterRegionWriter, w iface) = *nb == old(*nb) && *co == old(*co) && regionLen(fr) == old(regionLen(fr)) && ghost.layoutOvf == old(ghost.layoutOvf) && ghost.written[wid(w)] == old(ghost.written[wid(w)]) && sameelems(*nb)
 //@ pred sameSets2(s *bloomEntrySets) = s.fields == old(s.fields) && s.tokens == old(s.tokens) && s.fieldTokens == old(s.fieldTokens)
 //@ loop 0 invariant untouched(newDataBlocks, currentOffset, filterRegion, writer) && sameSets2(fileEntries)
@@ -1117,13 +1227,43 @@ package bloomsearch
 //@ ensures [C17] result == nil && !ghost.layoutOvf ==> ghost.written[wid(writer)] == old(ghost.written[wid(writer)]) + (*currentOffset - old(*currentOffset))
 //@ ensures [C17] old(ghost.layoutOvf) ==> ghost.layoutOvf
 //@ ensures sameSets2(fileEntries)
+// C12: whatever the grouping decides, a group that is going to be combined into
+// one block (more than one member) holds at most MaxRowGroupRows rows and
+// MaxRowGroupBytes uncompressed bytes in total — the running totals the loop
+// keeps are exactly the sums over the group's members (fold `sum x in g`, for
+// groups of any length), a member joins only if the totals stay within both
+// limits, and finished groups are never touched again. Stated for source
+// counters and limits in [0, 2^62) (the range in which the Go additions are
+// exact); counters outside it are C19's business.
+//@ pred cntOK(v int) = 0 <= v && v < 4611686018427387904
+//@ pred grpRows(g []int, bs []blockWithFile) = sum x in g :: bs[x].block.Rows
+//@ pred grpSize(g []int, bs []blockWithFile) = sum x in g :: bs[x].block.UncompressedSize
+//@ pred grpOK(g []int, bs []blockWithFile, e *BloomSearchEngine) = arr(g) >= $alloc && (len(g) > 1 ==> grpRows(g, bs) <= e.config.MaxRowGroupRows && grpSize(g, bs) <= e.config.MaxRowGroupBytes)
+//@ requires [C12] forall bw in allBlocks :: cntOK(bw.block.Rows) && cntOK(bw.block.UncompressedSize)
+//@ requires [C12] cntOK(b.config.MaxRowGroupRows) && cntOK(b.config.MaxRowGroupBytes)
+//@ loop 1 invariant [C12,C04,C11] forall g in mergeGroups :: arr(g) >= $alloc && arr(g) < old($alloc)
+//@ loop 1 invariant [C12] forall g in mergeGroups :: grpOK(g, allBlocks, b)
+//@ loop 2 invariant [C12,C04,C11] forall g in mergeGroups :: arr(g) >= $alloc && arr(g) < old($alloc)
+//@ loop 2 invariant [C12] forall g in mergeGroups :: grpOK(g, allBlocks, b)
+//@ loop 3 invariant [C12,C04,C11] forall g in mergeGroups :: arr(g) >= $alloc && arr(g) < old($alloc)
+//@ loop 3 invariant [C12] forall g in mergeGroups :: grpOK(g, allBlocks, b)
+//@ loop 3 invariant [C12,C04,C11] len(currentGroup) >= 1 && arr(currentGroup) >= $alloc && arr(currentGroup) < old($alloc)
+//@ loop 3 invariant [C12] currentRows == grpRows(currentGroup, allBlocks)
+//@ loop 3 invariant [C12] currentSize == grpSize(currentGroup, allBlocks)
+//@ loop 3 invariant [C12] len(currentGroup) > 1 ==> currentRows <= b.config.MaxRowGroupRows && currentSize <= b.config.MaxRowGroupBytes
+//@ loop 3 invariant [C12] cntOK(currentRows) && cntOK(currentSize)
+// The groups are then dispatched as they were formed: the callees write no
+// index list (of the int objects that exist they change only *currentOffset),
+// so each combined block is built from a group that satisfies the limits.
+//@ loop 4 invariant [C12,C04,C11] forall g in mergeGroups :: arr(g) >= $alloc && arr(g) < old($alloc)
+//@ loop 4 invariant [C12] forall g in mergeGroups :: grpOK(g, allBlocks, b)
 
 // finish writes the whole buffered region and rebases every block's section
 // offset by the region's position; nothing else in the records changes.
 //@ func (*blockFilterRegionWriter).finish
 //@ props C17
 //@ requires r != nil
-//@ modifies blocks[*], ghost.writes, ghost.written
+//@ modifies blocks[*], ghost.writes, ghost.written, ghost.stageIn
 //@ pred rebased(nw DataBlockMetadata, od DataBlockMetadata, by int) = (od.BloomFilterOffset + by <= MaxInt64 && od.BloomFilterOffset + by >= MinInt64 ==> nw.BloomFilterOffset == od.BloomFilterOffset + by) && nw.BloomFilterSize == od.BloomFilterSize && nw.RowDataOffset == od.RowDataOffset && nw.RowDataSize == od.RowDataSize
 //@ loop 0 invariant -1 <= $index && $index < len(blocks) && arrframe(blocks)
 //@ loop 0 invariant forall k :: 0 <= k && k <= $index ==> rebased(blocks[k], old(blocks[k]), regionOffset)
@@ -1200,6 +1340,7 @@ package bloomsearch
 
 //@ func (*BloomSearchEngine).copyDataBlock
 //@ props C18 C17
+//@ ensures [C12] cellsframe(currentOffset)     // of the int objects that existed, only *currentOffset is written
 //@ heapfacts []DataBlockMetadata, bloomEntrySets
 //@ requires b != nil && currentOffset != nil && newDataBlocks != nil && fileEntries != nil && filterRegion != nil
 // C17: a copied block lands at the output's current offset with its original
@@ -1222,8 +1363,14 @@ package bloomsearch
 //@ ensures [C17] result == nil && !ghost.layoutOvf ==> ghost.written[wid(writer)] == old(ghost.written[wid(writer)]) + (*currentOffset - old(*currentOffset))
 //@ ensures [C17] result == nil ==> (*newDataBlocks)[len(*newDataBlocks) - 1].RowDataSize == bwf.block.RowDataSize && (*newDataBlocks)[len(*newDataBlocks) - 1].Rows == bwf.block.Rows
 //@ ensures [C17] result != nil ==> len(*newDataBlocks) == old(len(*newDataBlocks)) && *currentOffset == old(*currentOffset) && regionLen(filterRegion) == old(regionLen(filterRegion))
+// C11: a copied block keeps everything that describes its content — partition,
+// ranges, counters, hash, compression — and changes only where it sits.
+//@ pred sameContent(a DataBlockMetadata, c DataBlockMetadata) = a.PartitionID == c.PartitionID && a.MinMaxIndexes == c.MinMaxIndexes && a.Rows == c.Rows && a.RowDataSize == c.RowDataSize && a.UncompressedSize == c.UncompressedSize && a.Compression == c.Compression && a.RowDataHash == c.RowDataHash && a.HasRowDataHash == c.HasRowDataHash
+//@ ensures [C11] ghost.scanErrs > old(ghost.scanErrs) ==> result != nil
+//@ loop 0 invariant [C11] ghost.scanErrs == old(ghost.scanErrs)
+//@ ensures [C11] result == nil ==> len(*newDataBlocks) == old(len(*newDataBlocks)) + 1 && sameContent((*newDataBlocks)[len(*newDataBlocks) - 1], bwf.block)
 //@ appends *newDataBlocks
-//@ modifies heaps, ghost.pinned, ghost.unsafeViews, ghost.opens, ghost.handleCloses, ghost.writes, ghost.written, ghost.layoutOvf
+//@ modifies heaps, ghost.pinned, ghost.unsafeViews, ghost.opens, ghost.handleCloses, ghost.writes, ghost.written, ghost.layoutOvf, ghost.seekPos, ghost.stageIn, ghost.rowsScanned, ghost.scanErrs
 //@ loop 0 invariant forall a :: ghost.pinned[a] ==> a >= $alloc && a != 0
 //@ loop 0 invariant scanner != nil && 0 <= scanner.pos && scanner.pos <= len(scanner.data)
 //@ loop 0 invariant fileEntries.fields == old(fileEntries.fields) && fileEntries.tokens == old(fileEntries.tokens) && fileEntries.fieldTokens == old(fileEntries.fieldTokens)
@@ -1231,6 +1378,11 @@ package bloomsearch
 
 //@ func (*BloomSearchEngine).mergeDataBlocks
 //@ props C18 C17
+// C12: this is where blocks are combined into one — the group handed in holds at
+// most MaxRowGroupRows rows and MaxRowGroupBytes uncompressed bytes in total
+// (by the source blocks' own counters).
+//@ requires [C12] len(groupIndices) > 1 ==> grpRows(groupIndices, allBlocks) <= b.config.MaxRowGroupRows && grpSize(groupIndices, allBlocks) <= b.config.MaxRowGroupBytes
+//@ ensures [C12] cellsframe(currentOffset)     // of the int objects that existed, only *currentOffset is written
 //@ heapfacts []DataBlockMetadata, bloomEntrySets
 // C17: same layout obligations as copyDataBlock, for a rebuilt block.
 //@ requires [C17] rowsOK(*newDataBlocks, *currentOffset) && sectionsAt(*newDataBlocks, 0, regionLen(filterRegion))
@@ -1246,7 +1398,7 @@ package bloomsearch
 //@ ensures [C17] result == nil && !ghost.layoutOvf ==> *currentOffset == old(*currentOffset) + (*newDataBlocks)[len(*newDataBlocks) - 1].RowDataSize
 //@ ensures [C17] result == nil ==> rowsOK(*newDataBlocks, *currentOffset)
 //@ ensures [C17] result == nil && !ghost.layoutOvf ==> ghost.written[wid(writer)] == old(ghost.written[wid(writer)]) + (*currentOffset - old(*currentOffset))
-//@ ensures [C17] result == nil ==> (*newDataBlocks)[len(*newDataBlocks) - 1].PartitionID == partitionID
+//@ ensures [C17,C11] result == nil ==> (*newDataBlocks)[len(*newDataBlocks) - 1].PartitionID == partitionID
 //@ ensures [C17] result != nil ==> len(*newDataBlocks) == old(len(*newDataBlocks)) && *currentOffset == old(*currentOffset)
 //@ loop 0 invariant [C17] *newDataBlocks == old(*newDataBlocks)
 //@ loop 0 invariant [C17] *currentOffset == old(*currentOffset)
@@ -1258,6 +1410,28 @@ package bloomsearch
 //@ loop 1 invariant [C17] ghost.written[wid(writer)] == old(ghost.written[wid(writer)])
 //@ loop 0 invariant [C17] forall k :: 0 <= k && k < len(*newDataBlocks) ==> (*newDataBlocks)[k] == old((*newDataBlocks)[k])
 //@ loop 1 invariant [C17] forall k :: 0 <= k && k < len(*newDataBlocks) ==> (*newDataBlocks)[k] == old((*newDataBlocks)[k])
+// C17 counters / C11 content (merge path): the rebuilt block's recorded row count
+// is the number of rows the scanners yielded, and its recorded uncompressed size
+// is the number of bytes handed to the compression stage — every scanned row
+// is written, with its length prefix, and counted; none is dropped or counted
+// twice (for any number of source blocks and rows).
+//@ loop 0 invariant [C17,C11] ghost.rowsScanned >= old(ghost.rowsScanned) && (ghost.rowsScanned - old(ghost.rowsScanned) <= MaxInt64 ==> rowCount == ghost.rowsScanned - old(ghost.rowsScanned))
+//@ loop 1 invariant [C17,C11] ghost.rowsScanned >= old(ghost.rowsScanned) && (ghost.rowsScanned - old(ghost.rowsScanned) <= MaxInt64 ==> rowCount == ghost.rowsScanned - old(ghost.rowsScanned))
+//@ loop 0 invariant [C17] ghost.stageIn >= old(ghost.stageIn) && (ghost.stageIn - old(ghost.stageIn) <= MaxInt64 ==> uncompressedSize == ghost.stageIn - old(ghost.stageIn))
+//@ loop 1 invariant [C17] ghost.stageIn >= old(ghost.stageIn) && (ghost.stageIn - old(ghost.stageIn) <= MaxInt64 ==> uncompressedSize == ghost.stageIn - old(ghost.stageIn))
+//@ ensures [C11] ghost.scanErrs > old(ghost.scanErrs) ==> result != nil      // a malformed source block fails the merge instead of truncating it
+//@ loop 0 invariant [C11] ghost.scanErrs == old(ghost.scanErrs)
+//@ loop 1 invariant [C11] ghost.scanErrs == old(ghost.scanErrs)
+//@ ensures [C17,C11] result == nil && ghost.rowsScanned - old(ghost.rowsScanned) <= MaxInt64 ==> (*newDataBlocks)[len(*newDataBlocks) - 1].Rows == ghost.rowsScanned - old(ghost.rowsScanned)
+//@ ensures [C17] result == nil && ghost.stageIn - old(ghost.stageIn) <= MaxInt64 ==> (*newDataBlocks)[len(*newDataBlocks) - 1].UncompressedSize == ghost.stageIn - old(ghost.stageIn)
+// C04 / C11 / C18 (minmax): the merged block's ranges contain the ranges of
+// every source block of the group (for groups of any size), so a value covered
+// by a source block's range is covered by the merged block's.
+//@ requires [C04,C11] arr(groupIndices) != ref(currentOffset)     // the index list is not the memory the running offset lives in
+//@ pred rangesWithin(src map[string]MinMaxIndex, dst map[string]MinMaxIndex) = forall k str :: has(src, k) ==> has(dst, k) && within(src[k], dst[k])
+//@ loop 0 invariant [C04,C11] -1 <= $index && $index < len(groupIndices) && forall x in groupIndices[:$index + 1] :: rangesWithin(allBlocks[x].block.MinMaxIndexes, mergedMinMaxIndexes)
+//@ loop 1 invariant [C04,C11] 0 <= i && i < len(groupIndices) && forall x in groupIndices[:i + 1] :: rangesWithin(allBlocks[x].block.MinMaxIndexes, mergedMinMaxIndexes)
+//@ ensures [C04,C11] result == nil ==> forall x in groupIndices :: rangesWithin(allBlocks[x].block.MinMaxIndexes, (*newDataBlocks)[len(*newDataBlocks) - 1].MinMaxIndexes)
 //@ requires b != nil && currentOffset != nil && newDataBlocks != nil && fileEntries != nil && filterRegion != nil
 //@ requires setsOK(fileEntries)
 //@ pred sameSets(s *bloomEntrySets) = s.fields == old(s.fields) && s.tokens == old(s.tokens) && s.fieldTokens == old(s.fieldTokens)
@@ -1272,7 +1446,7 @@ package bloomsearch
 //@ ensures [C18] result == nil ==> ghost.unions == old(ghost.unions) + 1
 //@ ensures [C18] ghost.unions <= old(ghost.unions) + 1
 //@ appends *newDataBlocks
-//@ modifies heaps, ghost.pinned, ghost.unsafeViews, ghost.opens, ghost.handleCloses, ghost.writes, ghost.written, ghost.unions, ghost.layoutOvf
+//@ modifies heaps, ghost.pinned, ghost.unsafeViews, ghost.opens, ghost.handleCloses, ghost.writes, ghost.written, ghost.unions, ghost.layoutOvf, ghost.seekPos, ghost.stageIn, ghost.rowsScanned, ghost.scanErrs
 //@ loop 0 invariant forall a :: ghost.pinned[a] ==> a >= $alloc && a != 0
 //@ loop 1 invariant forall a :: ghost.pinned[a] ==> a >= $alloc && a != 0
 //@ loop 1 invariant scanner != nil && 0 <= scanner.pos && scanner.pos <= len(scanner.data)
@@ -1284,6 +1458,15 @@ package bloomsearch
 //@ func (*BloomSearchEngine).merge
 //@ props C13
 //@ requires b != nil
+// C12: the files one Merge call removes are exactly the files of the groups
+// identifyFileMergeGroups formed (one delete operation per group member, for any
+// number of groups of any size), so at the commit their number is within
+// MaxFilesToMergePerOperation.
+//@ requires [C12] b.config.MaxFilesToMergePerOperation < 4611686018427387904
+//@ loop 0 invariant [C12] b.config.MaxFilesToMergePerOperation < 4611686018427387904
+//@ loop 8 invariant [C12] -1 <= $index && $index < len(mergeGroups) && len(deleteOps) == filesIn(mergeGroups[:$index + 1])
+//@ loop 10 invariant [C12] -1 <= $index && $index < len(group) && 0 <= groupIndex && groupIndex < len(mergeGroups) && group == mergeGroups[groupIndex] && len(deleteOps) == filesIn(mergeGroups[:groupIndex]) + $index + 1
+//@ at call Update#1 assert [C12] len(deleteOps) == filesIn(mergeGroups) && (len(deleteOps) == 0 || len(deleteOps) <= b.config.MaxFilesToMergePerOperation)
 //@ modifies heaps, $store, ghost.handleCloses, ghost.unsafeViews, ghost.pinned
 //@ loop 8 invariant -1 <= $index && ghost.updates == old(ghost.updates) && ghost.updateOK == old(ghost.updateOK) && ghost.tombstones == old(ghost.tombstones)
 //@ loop 8 invariant ghost.created == old(ghost.created) + $index + 1 && ghost.creates == old(ghost.creates) + $index + 1 && ghost.closeOK == old(ghost.closeOK) + $index + 1 && len(writeOps) == $index + 1
@@ -1437,7 +1620,11 @@ package bloomsearch
 //@ props C19 C02 C23 C11
 //@ safety
 //@ requires s != nil && 0 <= s.pos && s.pos <= len(s.data)
-//@ modifies s.pos
+//@ exit ghost.rowsScanned = err == nil && ok ? ghost.rowsScanned + 1 : ghost.rowsScanned
+//@ exit ghost.scanErrs = err != nil ? ghost.scanErrs + 1 : ghost.scanErrs
+//@ modifies s.pos, ghost.rowsScanned, ghost.scanErrs
+//@ ensures ghost.scanErrs == old(ghost.scanErrs) + (err != nil ? 1 : 0)
+//@ ensures ghost.rowsScanned == old(ghost.rowsScanned) + (err == nil && ok ? 1 : 0)
 //@ ensures 0 <= s.pos && s.pos <= len(s.data) && s.data == old(s.data)
 //@ ensures err == nil && ok ==> old(s.pos) + 4 <= s.pos && len(row) == s.pos - old(s.pos) - 4
 //@ ensures err == nil && !ok ==> s.pos == old(s.pos) && s.pos == len(s.data)
@@ -1451,32 +1638,48 @@ package bloomsearch
 // ---------------------------------------------------------------------------
 
 //@ specfun fileSize(r iface) int
+// File content as seen through a read handle: fbyte(r, off) is the byte at
+// offset off. A handle's content does not change while it is being read (files
+// are written once and never modified: assumption). seekPos[wid(r)] is where
+// the next read starts, set by an absolute Seek.
+//@ specfun fbyte(r iface, off int) int
+//@ ghostvar seekPos map[int]int
 //@ extern io.ReadSeeker.Seek
+//@ modifies ghost.seekPos
 //@ ensures fileSize(recv) >= 0
 //@ ensures result1 == nil && whence == 2 && offset == 0 ==> result0 == fileSize(recv)
+//@ ensures result1 == nil && whence == 0 ==> ghost.seekPos[wid(recv)] == offset
 //@ extern io.ReadSeekCloser.Seek
+//@ modifies ghost.seekPos
 //@ ensures fileSize(recv) >= 0
 //@ ensures result1 == nil && whence == 2 && offset == 0 ==> result0 == fileSize(recv)
+//@ ensures result1 == nil && whence == 0 ==> ghost.seekPos[wid(recv)] == offset
 //@ extern io.Seeker.Seek
+//@ modifies ghost.seekPos
 //@ ensures fileSize(recv) >= 0
 //@ ensures result1 == nil && whence == 2 && offset == 0 ==> result0 == fileSize(recv)
+//@ ensures result1 == nil && whence == 0 ==> ghost.seekPos[wid(recv)] == offset
 //@ extern io.ReadFull
 //@ requires [C18] arr(buf) == 0 || !ghost.pinned[arr(buf)]   // never refill a buffer that index entries still view
-//@ modifies buf[*]
+//@ modifies buf[*], ghost.seekPos
+//@ ensures result1 == nil ==> forall k :: 0 <= k && k < len(buf) ==> buf[k] == fbyte(r, old(ghost.seekPos[wid(r)]) + k)
 
 // An extent accepted by checkExtentWithinFile lies inside the file (stated over
 // mathematical integers: the subtraction form cannot overflow).
 //@ func checkExtentWithinFile
+//@ modifies ghost.seekPos
 //@ props C19
 //@ safety
 //@ requires offset >= 0 && size >= 0
 //@ ensures result == nil ==> offset + size <= fileSize(file)
 
 //@ func readFullAt
-//@ props C19 C24 C18
+//@ props C19 C24 C18 C01
 //@ safety
 //@ requires [C18] arr(buf) == 0 || !ghost.pinned[arr(buf)]
-//@ modifies buf[*]
+//@ modifies buf[*], ghost.seekPos
+// C01 (L5): what a successful read leaves in the buffer is the file's content at that offset
+//@ ensures [C01] result == nil ==> forall k :: 0 <= k && k < len(buf) ==> buf[k] == fbyte(r, off + k)
 
 // decodeBlockRowDataInto: CRC before decompression; output bounded by the
 // block's UncompressedSize (not a framing field: it sizes the decode buffer and
@@ -1486,7 +1689,7 @@ package bloomsearch
 //@ safety
 //@ requires block != nil
 //@ requires [C18] arr(dst) == 0 || !ghost.pinned[arr(dst)]
-//@ modifies heaps
+//@ modifies heaps, ghost.seekPos
 //@ ensures result1 == nil && normalizeCompressionIsNone(block) ==> result0 == compressed
 //@ pred normalizeCompressionIsNone(b *DataBlockMetadata) = b.Compression == "" || b.Compression == CompressionNone
 
@@ -1495,21 +1698,21 @@ package bloomsearch
 //@ safety
 //@ alloc_limit fileSize(file)
 //@ requires block != nil
-//@ modifies heaps
+//@ modifies heaps, ghost.seekPos
 
 //@ func readPooledBlockRowData
 //@ props C19 C03
 //@ safety
 //@ alloc_limit fileSize(file)
 //@ requires block != nil
-//@ modifies heaps, ghost.bufOwned
+//@ modifies heaps, ghost.bufOwned, ghost.seekPos
 //@ at call getScanBuffer#1 assert [C19] block.RowDataSize <= fileSize(file)
 
 //@ func ReadDataBlockBloomFilters
 //@ props C19 C03
 //@ safety
 //@ alloc_limit fileSize(file)
-//@ modifies heaps, ghost.bufOwned
+//@ modifies heaps, ghost.bufOwned, ghost.seekPos
 //@ at call getScanBuffer#1 assert [C19] blockMetadata.BloomFilterSize <= fileSize(file)
 
 //@ extern bytes.NewReader
@@ -1551,14 +1754,14 @@ package bloomsearch
 //@ props C19 C17
 //@ safety
 //@ alloc_limit fileSize(r)
-//@ modifies heaps
+//@ modifies heaps, ghost.seekPos
 //@ ensures result2 == nil ==> result1 == fileSize(r) && result0 != nil
 
 //@ func (*BloomSearchEngine).loadBlockRowData
 //@ props C19 C13 C18
 //@ safety
 //@ requires b != nil
-//@ modifies heaps, ghost.opens, ghost.handleCloses
+//@ modifies heaps, ghost.opens, ghost.handleCloses, ghost.seekPos
 
 // Scan-buffer pool (codec_pool.go). bufOwned[a] means backing array a is checked
 // out of the pool: set by getScanBuffer, cleared by putScanBuffer, which
@@ -1595,6 +1798,9 @@ package bloomsearch
 // buffer the cursor owns.
 //@ pred cursorOK(c *blockFilterCursor) = c.chunkStart >= 0 && c.regionStart >= 0 && c.regionStart <= c.regionEnd && (arr(c.buf) == 0 || ghost.bufOwned[arr(c.buf)])
 
+// C01 (L5): the chunk in hand is the file's content at chunkStart.
+//@ pred chunkOK(c *blockFilterCursor) = forall k :: 0 <= k && k < len(c.buf) ==> c.buf[k] == fbyte(c.file, c.chunkStart + k)
+
 //@ func (*blockFilterCursor).release
 //@ props C19 C03
 //@ requires c != nil && cursorOK(c)
@@ -1609,7 +1815,9 @@ package bloomsearch
 //@ props C19 C24 C01 C03
 //@ requires c != nil && 0 <= i && i < len(c.blocks) && cursorOK(c)
 //@ requires c.blocks[i].BloomFilterSize > 0 && validSection(c.blocks[i], c.regionStart, c.regionEnd)
-//@ modifies c.buf, c.chunkStart, c.chunkShare, heap(byte), ghost.bufOwned, scanBufferPools
+//@ modifies c.buf, c.chunkStart, c.chunkShare, heap(byte), ghost.bufOwned, ghost.seekPos, scanBufferPools
+//@ requires [C01] chunkOK(c)
+//@ ensures [C01] chunkOK(c)
 //@ loop 0 invariant i < j && j <= len(c.blocks) && covered >= 1 && covered <= j - i && cursorOK(c) && c.buf == old(c.buf) && c.chunkStart == old(c.chunkStart)
 //@ loop 0 invariant start == c.blocks[i].BloomFilterOffset && start + c.blocks[i].BloomFilterSize <= end && end <= c.regionEnd && c.regionStart <= start
 //@ loop 0 invariant forall a :: ghost.bufOwned[a] == old(ghost.bufOwned[a])
@@ -1626,6 +1834,7 @@ package bloomsearch
 //@ requires c.chunkStart >= 0            // cursor invariant: 0 initially, a validated section offset afterwards
 //@ ensures result1 ==> c.buf != nil && c.chunkStart <= block.BloomFilterOffset && block.BloomFilterOffset + block.BloomFilterSize <= c.chunkStart + len(c.buf)
 //@ ensures result1 ==> len(result0) == block.BloomFilterSize
+//@ ensures [C01] result1 ==> forall k :: 0 <= k && k < len(result0) ==> result0[k] == c.buf[block.BloomFilterOffset - c.chunkStart + k]
 
 // ---------------------------------------------------------------------------
 // merge.go
@@ -1634,9 +1843,72 @@ package bloomsearch
 //@ func (*BloomSearchEngine).blocksWithinMergeLimits
 //@ props C12
 //@ requires b != nil
-//@ requires [C12] 0 <= shape1.rows && 0 <= shape2.rows && 0 <= shape1.uncompressedSize && 0 <= shape2.uncompressedSize
-//@ requires [C12] shape1.rows < 4611686018427387904 && shape2.rows < 4611686018427387904 && shape1.uncompressedSize < 4611686018427387904 && shape2.uncompressedSize < 4611686018427387904
-//@ ensures result <==> (shape1.rows + shape2.rows <= b.config.MaxRowGroupRows && shape1.uncompressedSize + shape2.uncompressedSize <= b.config.MaxRowGroupBytes)
+// for counters in [0, 2^62) (where the Go additions are exact) the test is
+// exactly the mathematical one
+//@ ensures cntOK(shape1.rows) && cntOK(shape2.rows) && cntOK(shape1.uncompressedSize) && cntOK(shape2.uncompressedSize) ==> (result <==> (shape1.rows + shape2.rows <= b.config.MaxRowGroupRows && shape1.uncompressedSize + shape2.uncompressedSize <= b.config.MaxRowGroupBytes))
+
+// mergeMinMaxIndexes (C04 obligation 4, C18, C11): the merged block lists exactly
+// the keys either source lists, and each merged range contains both sources'
+// ranges — so whatever value a source range covered is still covered.
+//@ pred within(a MinMaxIndex, b MinMaxIndex) = b.Min <= a.Min && a.Max <= b.Max
+//@ func (*BloomSearchEngine).mergeMinMaxIndexes
+//@ props C04 C18 C11
+//@ modifies nothing
+//@ loop 0 invariant mapsframe(merged) && ref(merged) < old($alloc)
+//@ loop 1 invariant mapsframe(merged) && ref(merged) < old($alloc)
+//@ loop 0 invariant forall k str :: has(merged, k) <==> $visited[k]
+//@ loop 0 invariant forall k str :: $visited[k] ==> has(indexes1, k) && merged[k] == indexes1[k]
+//@ loop 1 invariant forall k str :: has(merged, k) <==> has(indexes1, k) || $visited[k]
+//@ loop 1 invariant forall k str :: $visited[k] ==> has(indexes2, k) && within(indexes2[k], merged[k])
+//@ loop 1 invariant forall k str :: has(indexes1, k) ==> within(indexes1[k], merged[k])
+//@ ensures forall k str :: has(result, k) <==> has(indexes1, k) || has(indexes2, k)
+//@ ensures forall k str :: has(indexes1, k) ==> within(indexes1[k], result[k])
+//@ ensures forall k str :: has(indexes2, k) ==> within(indexes2[k], result[k])
+
+// calculateFileStatistics builds its own result: it writes no engine state (frame
+// by the types of the locations its body can store to).
+//@ func (*BloomSearchEngine).calculateFileStatistics
+//@ appends stats.partitionIDs
+//@ props C12
+//@ requires b != nil
+//@ modifies heaps
+
+// hasMergeableBlockPair only reads.
+//@ func (*BloomSearchEngine).hasMergeableBlockPair
+//@ props C12
+//@ requires b != nil
+//@ modifies nothing
+
+// identifyFileMergeGroups (C12): the groups handed to one Merge call hold at most
+// MaxFilesToMergePerOperation files in total (merge deletes exactly these
+// files), and a group is only formed of at least two files. The running count
+// is the fold of the group lengths, for any number of groups.
+//@ func (*BloomSearchEngine).identifyFileMergeGroups
+//@ props C12
+//@ requires b != nil
+//@ requires [C12] b.config.MaxFilesToMergePerOperation < 4611686018427387904     // the range in which the Go additions of the file-count test are exact
+//@ modifies heaps
+//@ pred filesIn(gs [][]fileMergeCandidate) = sum g in gs :: len(g)
+// the shape lists kept in the two local maps are built by this call's own
+// appends only (append-shared: their spare capacity is seen by nobody else)
+//@ pred ownShapes(m map[string][]blockMergeShape) = forall key str :: has(m, key) ==> arr(m[key]) < old($alloc)
+//@ loop 1 invariant ownShapes(index)
+//@ loop 3 invariant ownShapes(groupBlocks)
+//@ loop 4 invariant ownShapes(groupBlocks)
+//@ loop 5 invariant ownShapes(groupBlocks)
+//@ loop 2 invariant [C12] totalFilesInGroups == filesIn(mergeGroups) && totalFilesInGroups >= 0
+//@ loop 2 invariant [C12] totalFilesInGroups == 0 || totalFilesInGroups <= b.config.MaxFilesToMergePerOperation
+//@ loop 2 invariant [C12] forall g in mergeGroups :: len(g) >= 2
+//@ loop 3 invariant [C12] totalFilesInGroups == filesIn(mergeGroups) && totalFilesInGroups >= 0 && totalFilesInGroups < b.config.MaxFilesToMergePerOperation
+//@ loop 3 invariant [C12] forall g in mergeGroups :: len(g) >= 2
+//@ loop 4 invariant [C12] totalFilesInGroups == filesIn(mergeGroups) && totalFilesInGroups >= 0 && totalFilesInGroups < b.config.MaxFilesToMergePerOperation
+//@ loop 4 invariant [C12] forall g in mergeGroups :: len(g) >= 2
+//@ loop 4 invariant [C12] len(currentGroup) >= 1 && (len(currentGroup) == 1 || totalFilesInGroups + len(currentGroup) <= b.config.MaxFilesToMergePerOperation)
+//@ loop 5 invariant [C12] totalFilesInGroups == filesIn(mergeGroups) && totalFilesInGroups >= 0 && totalFilesInGroups < b.config.MaxFilesToMergePerOperation
+//@ loop 5 invariant [C12] forall g in mergeGroups :: len(g) >= 2
+//@ loop 5 invariant [C12] len(currentGroup) >= 2 && totalFilesInGroups + len(currentGroup) <= b.config.MaxFilesToMergePerOperation
+//@ ensures [C12] filesIn(result) == 0 || filesIn(result) <= b.config.MaxFilesToMergePerOperation
+//@ ensures [C12] forall g in result :: len(g) >= 2
 
 // ---------------------------------------------------------------------------
 // query.go — prefilter evaluation (C04)
